@@ -10,6 +10,7 @@ import DtailModel.Generated.Code
 import DtailModel.Lemmas.GoRT
 import DtailModel.Lemmas.Color
 import DtailModel.Lemmas.GenQuery
+set_option autoImplicit false
 namespace Dtail.GenBrush
 open Dtail Dtail.Go Dtail.GenQuery
 
